@@ -299,6 +299,8 @@ class GFA:
                 # I am adding the tags as key:value, key is tag_name:type and value is the value at the end
                 # e.g. SN:i:10 will be {"SN": ('i', '10')}
                 self[node_id].tags[tag[0]] = (tag[1], tag[2])  # (type, value)
+            if "SN" in self[node_id].tags:
+                self.contig_to_nodes[self[node_id].tags["SN"][1]].append(node_id)
             if "SN" in self[node_id].tags and "SR" in self[node_id].tags:
                 contig_name = self[node_id].tags["SN"][1]
                 contig_rank = int(self[node_id].tags["SR"][1])
@@ -393,8 +395,6 @@ class GFA:
                     self.add_node(line[1], "", line[3:])
                 else:
                     self.add_node(line[1], line[2], line[3:])
-                if "SN" in self[line[1]].tags:
-                    self.contig_to_nodes[self[line[1]].tags["SN"][1]].append(line[1])
 
             elif line.startswith("L"):
                 edges.append(line)
